@@ -11,13 +11,24 @@ ID = "C14"
 COQ_PROPERTY_FILE = "Properties/C14.v"
 COQ_DEPS = ["Generated/Tables.v", "Model/Devs.v", "Model/DevsSpec.v", "Model/Heap.v", "Model/DevsHeap.v", "Proofs/DevsProofs.v", "Proofs/DevsOrderProofs.v",
             "Proofs/DevsOnceProofs.v", "Proofs/DevsLiveProofs.v", "Proofs/DevsAtomicProofs.v", "Proofs/DevsChunkProofs.v",
-            "Proofs/DevsStepProofs.v", "Proofs/DevsTopProofs.v", "Proofs/DevsTop14Proofs.v", "Proofs/HeapProofs.v", "Proofs/DevsHeapProofs.v", "Proofs/DevsHeapSimProofs.v", "Proofs/DevsBridge.v"]
-COQ_IMPORTS = "From Mesa Require Import Generated.Tables Model.Devs."
-COQ_CASE_TYPE = "case"
-COQ_RUN = "run_case"
-if D.HEAP_TIE:      # VERIF_HEAPQ_TIE=1 ./check C14: the model that keeps the heapq array, observations + array order
-    COQ_IMPORTS = "From Mesa Require Import Generated.Tables Model.Devs Model.DevsHeap."
-    COQ_RUN = "run_case_heap"
+            "Proofs/DevsStepProofs.v", "Proofs/DevsTopProofs.v", "Proofs/DevsTop14Proofs.v", "Proofs/HeapProofs.v", "Proofs/DevsHeapProofs.v", "Proofs/DevsHeapSimProofs.v", "Proofs/DevsBridge.v", "Model/DevsLife.v", "Model/DevsHeapLife.v", "Proofs/DevsLifeProofs.v", "Proofs/DevsBoundaryProofs.v", "Proofs/DevsHeapLifeProofs.v"]
+COQ_IMPORTS = "From Mesa Require Import Generated.Tables Model.Devs Model.DevsLife."
+COQ_CASE_TYPE = "xcase"
+COQ_RUN = "run_xcase"
+
+
+def _enable_heap_tie():
+    """the heapq tie: the correspondence runs the model that keeps the heapq ARRAY (Model/DevsHeap.v + DevsHeapLife.v) and the
+    observations carry the order of EventList._events after every operation.  Always on in the thorough tier (set from
+    gen_cases, before the workers are forked), on demand with VERIF_HEAPQ_TIE=1."""
+    global COQ_IMPORTS, COQ_RUN
+    D.HEAP_TIE = True
+    COQ_IMPORTS = "From Mesa Require Import Generated.Tables Model.Devs Model.DevsLife Model.DevsHeap Model.DevsHeapLife."
+    COQ_RUN = "run_xcase_heap"
+
+
+if D.HEAP_TIE:
+    _enable_heap_tie()
 TABLE_CONSTRUCTS = ["devs_priority_values", "devs_event_key", "devs_step_priority",
                     "devs_skeleton", "devs_rel_code", "devs_abs_code", "devs_now_code", "devs_tick_code", "devs_schedule_event_code", "devs_run_for_code",
                     "devs_until_code", "devs_until_abm_code", "devs_abm_resched_code", "devs_execute_code", "devs_pop_code", "devs_peek_keeps_code", "devs_peek_full_code"]
@@ -193,8 +204,84 @@ def _float_case(rng):
     return _fcase(ops)
 
 
+def _life_case(rng, cls):
+    """the life cycle: histories on a simulator that was (70%) or was not set up, with reset(), setup() after a reset, a second
+    setup(), setup() while events are scheduled or at a non-zero clock, run calls while no model is attached, and cancel_event of
+    events that ran or vanished before the reset"""
+    g = D.Gen(rng, cls)
+    ops = []
+    case = {"cls": cls, "script": g.script(6, p=0.3), "fuel": 400, "ops": ops}
+    if rng.random() < 0.3:
+        case["setup"] = False
+    for phase in range(rng.randint(2, 4)):
+        for _ in range(rng.randint(0, 3)):
+            ops.append(g.sched(1, False, p_bad=0.05))
+        x = rng.random()
+        if x < 0.25:
+            ops.append(["setup"])               # second setup / setup with events pending / setup at a non-zero clock
+        for _ in range(rng.randint(0, 3)):
+            ops.append(g.run_piece(p_next=0.3))
+            if rng.random() < 0.3:
+                ops.append(g.sched(1, False))
+        if g.tags and rng.random() < 0.5:
+            ops.append(["cancel", rng.choice(g.tags)])          # often an event that already ran or was already cancelled
+            if rng.random() < 0.3:
+                ops.append(["cancel", ops[-1][1]])
+        if rng.random() < 0.2:
+            ops.append(["peek", rng.randint(1, 4)])
+        y = rng.random()
+        if y < 0.7:
+            ops.append(["reset"])
+            g.clk = 0
+            if rng.random() < 0.25:
+                ops.append(g.run_piece())               # no model attached: must raise
+                g.clk = 0
+            if rng.random() < 0.3:
+                ops.append(g.sched(1, False))           # then setup must be refused (events already scheduled)
+            if rng.random() < 0.85:
+                ops.append(["setup"])
+            if rng.random() < 0.2:
+                ops.append(["setup"])
+    for _ in range(rng.randint(1, 3)):
+        ops.append(g.run_piece())
+    return case
+
+
+def _inject_raise(rng, body):
+    """put one ["raise"] somewhere into this body or into the body of one of its schedule calls"""
+    inner = [a for a in body if a[0] == "sched" and a[7]]
+    if inner and rng.random() < 0.4:
+        return _inject_raise(rng, rng.choice(inner)[7])
+    body.insert(rng.randint(0, len(body)), ["raise"])
+
+
+def _exc_case(rng, cls):
+    """user callables (events, model.step) that raise in the middle of run_until / run_for / run_next_event; the history goes on
+    afterwards.  Oracle only ("exc": true -> no model run): the exception propagates, the event is consumed, the clock stays at
+    its time, everything else is untouched, and the continuation obeys C14 / C15."""
+    c = _inside_case(rng, cls)
+    g_ops = c["ops"]
+    cands = [o for o in g_ops if o[0] == "sched"]
+    for o in rng.sample(cands, min(len(cands), rng.randint(1, 2))):
+        _inject_raise(rng, o[7])
+    if cls == "ABM" and rng.random() < 0.5:
+        k = rng.randint(1, 4)
+        sc = dict((int(a), b) for a, b in c["script"])
+        sc.setdefault(k, [])
+        _inject_raise(rng, sc[k])
+        c["script"] = [[a, b] for a, b in sorted(sc.items())]
+    last = g_ops[-1]
+    g_ops.append(["next"])
+    g_ops.append(["until", last[1] + S, last[2]] if last[0] == "until" else ["for", S, False])
+    g_ops.append(["until", (last[1] if last[0] == "until" else 0) + 40 * S, False])
+    c["exc"] = True
+    return c
+
+
 def gen_cases(rng, tier):
-    n = 700 if tier == "quick" else 50000
+    if tier == "thorough":
+        _enable_heap_tie()
+    n = 700 if tier == "quick" else 30000
     cases = []
     for i in range(n):
         cls = "ABM" if rng.random() < 0.45 else "DEVS"
@@ -205,6 +292,10 @@ def gen_cases(rng, tier):
             cases.append(_peek_case(rng, cls))
         else:
             cases.append(_inside_case(rng, cls))
+    for _ in range(150 if tier == "quick" else 4000):
+        cases.append(_life_case(rng, "ABM" if rng.random() < 0.5 else "DEVS"))
+    for _ in range(120 if tier == "quick" else 3000):
+        cases.append(_exc_case(rng, "ABM" if rng.random() < 0.5 else "DEVS"))
     # non-dyadic float times: implementation + oracle only (run_impl answers "model": False for them)
     cases += list(_float_pair_cases(20 if tier == "quick" else 40))
     for _ in range(200 if tier == "quick" else 4000):
